@@ -769,7 +769,7 @@ func TestPropRoundTrip(t *testing.T) {
 		if classes["multipart-3+-out-of-order"] {
 			first = "multipart-out-of-order"
 		} else if classes["delete-batch-overlapping"] {
-			first = "delete-batch-overlapping"
+			first = "batch-delete-overlap"
 		}
 		// the case prefix is a counter: leave it out of the canonical description
 		desc := strings.ReplaceAll(strings.Join(trace, "; "), m.prefix, "")
